@@ -59,7 +59,7 @@ func runStorm(k int) {
 	}
 	var vs []*victim
 	var targets []any
-	kinds := []string{"actor", "actor", "actor", "trap", "trap", "raw"}
+	kinds := []string{"actor", "actor", "actor", "trap", "trap", "raw", "actor!", "trap!", "raw!"}
 	for j := 0; j < nV; j++ {
 		v, err := spawnVictim(n, parent, kinds[rng.Intn(len(kinds))], fmt.Sprintf("%s/v%d", id, j))
 		if err != nil {
